@@ -7,7 +7,7 @@ relative to the file length; every truncation).  Memory errors are observed beca
 sanitizer report, a non-zero scan result or a hang is a violation."""
 import os, sys, json, glob, time
 sys.path.insert(0, os.path.join(os.path.dirname(os.path.abspath(__file__)), "..", "gen"))
-import yv
+import yv, scangen as sg
 from checks import func
 
 REPO = yv.REPO
@@ -42,6 +42,9 @@ def seeds(tier):
             continue
         out.append(p)
     return out
+
+
+WARMUP = sg.minimal_pe()[0]
 
 
 def anchor_positions(path, n):
@@ -132,15 +135,15 @@ def c06(res, tier, seed):
     evaluations = 0
     # per-seed random choices are drawn up front so that the batches can run in parallel and stay reproducible
     import concurrent.futures as cf, random as _random
-    batch_seeds = {bi: r.getrandbits(64) for bi in range(0, len(sds), 3)}
+    batch_seeds = {bi: r.getrandbits(48) for bi in range(0, len(sds), 3)}
 
-    def run_batch(batch_i):
-        r = _random.Random(batch_seeds[batch_i])
-        batch = sds[batch_i:batch_i + 3]
+    def run_batch(batch_i, subset=None):
+        batch = subset or sds[batch_i:batch_i + 3]
         l_records, l_owners, l_sigs, l_eval, l_viol = [], [], set(), [0], []
         lines = ["init", "opt iterlog 0", "opt logmatches 0", "opt walkmodules 1", "opt flushscan 1", "opt hang 20", "compiler 0", "add 0 - " + yv.hx(RULES.encode()), "getrules 0 0", "cdestroy 0", "scanner 0 0"]
         plan = []
         for si, path in enumerate(batch):
+            r = _random.Random("%d/%s" % (batch_seeds[batch_i], os.path.basename(path)))      # per seed: the same mutants when the seed is re-run alone
             n = os.path.getsize(path)
             lines.append("datafile %d %s" % (10 + si, path))
             muts = [("orig", 0, 0, 0, 0)]
@@ -180,7 +183,7 @@ def c06(res, tier, seed):
                 else: lines += ["mutate %d 1 %d %d %d %d" % (10 + si, a, w, v, be), "scan 0 1 mem - - -"]
                 plan.append((path, m))
         lines += ["sdestroy 0", "rdestroy 0", "leakcheck", "finalize"]
-        run = yv.run_script(exe, lines, wd, name="c06_%d" % batch_i, hang=20, timeout=3000, parse=True)
+        run = yv.run_script(exe, lines, wd, name="c06_%d%s" % (batch_i, "_only" if subset else ""), hang=20, timeout=3000, parse=True)
         k = -1
         cur = None
         for e in run.events:
@@ -199,7 +202,17 @@ def c06(res, tier, seed):
                 l_sigs.add((os.path.basename(plan[k][0]), "".join(cur["sig"])))
                 l_eval[0] += 1
                 cur = None
-        if not run.complete:
+        leaked_at_exit = (not run.complete) and "LeakSanitizer" in (run.stderr or "") and any(e["e"] == "End" for e in run.events)
+        if leaked_at_exit and subset is None and len(batch) > 1:
+            # memory was still allocated when the process ended: every seed of the batch is re-run alone to say which one leaks
+            for path in batch:
+                sub = run_batch(batch_i, [path])
+                l_viol += sub[4]
+        elif leaked_at_exit:
+            frames = [ln.strip() for ln in (run.stderr or "").split("\n") if " in " in ln and "/repo/" in ln][:4]
+            l_viol.append(("scanning the mutants of %s leaked memory (LeakSanitizer at exit): %s" % (os.path.basename(batch[0]), " < ".join(f.split(" in ", 1)[1] for f in frames)),
+                           ("leak_%d_%s" % (batch_i, os.path.basename(batch[0])[:20]), {"seed": batch[0], "stderr": (run.stderr or "")[-4000:]})))
+        elif not run.complete:
             bad = plan[k] if (cur is not None and 0 <= k < len(plan)) else (plan[k + 1] if 0 <= k + 1 < len(plan) else ("?", "?"))
             l_viol.append(("scanning a mutant of %s (%s) crashed / hung / leaked: %s" % (os.path.basename(bad[0]), bad[1], yv.crash_summary(run)),
                            ("crash_%d_%d" % (batch_i, k + 1), {"seed": bad[0], "mutation": bad[1], "crash": yv.crash_summary(run), "stderr": (run.stderr or "")[-3000:]})))
@@ -211,7 +224,7 @@ def c06(res, tier, seed):
             for msg, (rname, robj) in l_viol:
                 res.violation(msg, yv.save_replay("C06", rname, robj))
     # ---- structured family (gen/pegen.py): every table of a generated PE placed last in the file, cut inside it, counts inflated
-    import pegen, elfgen, machogen, dexgen
+    import pegen, elfgen, machogen, dexgen, dotnetgen
     fam_pe = pegen.family(r, tier)
     fam_elf = [("ELF " + l, d) for l, d in elfgen.family(r, tier)]
     res.cov["parts"]["structured_pe_mutants"] = len(fam_pe)
@@ -220,7 +233,9 @@ def c06(res, tier, seed):
     res.cov["parts"]["structured_macho_mutants"] = len(fam_macho)
     fam_dex = [("DEX " + l, d) for l, d in dexgen.family(r, tier)]
     res.cov["parts"]["structured_dex_mutants"] = len(fam_dex)
-    fam = fam_pe + fam_elf + fam_macho + fam_dex
+    fam_net = [(".NET " + l, d) for l, d in dotnetgen.family(r, tier)]
+    res.cov["parts"]["structured_dotnet_mutants"] = len(fam_net)
+    fam = fam_pe + fam_elf + fam_macho + fam_dex + fam_net
     queue = [fam[bi:bi + 400] for bi in range(0, len(fam), 400)]
     bi = -1
     while queue:
@@ -245,7 +260,27 @@ def c06(res, tier, seed):
                 sigs.add(("pegen", part[k][0].split(" cut=")[0], "".join(cur["sig"])))
                 evaluations += 1
                 cur = None
-        if not run.complete:
+        ended = any(e["e"] == "End" for e in run.events)
+        if not run.complete and ended and "LeakSanitizer" in (run.stderr or ""):
+            # every scan returned, memory was still allocated at exit: bisect the batch for one input that leaks on its own
+            def leaks(sub):
+                ls = lines[:11]
+                for label, data in sub: ls += ["data 1 " + yv.hx(data), "scan 0 1 mem - - -"]
+                rr = yv.run_script(exe, ls + ["sdestroy 0", "rdestroy 0", "finalize"], wd, name="c06_bisect", hang=20, timeout=900, parse=False)
+                return (not rr.complete) and "LeakSanitizer" in (rr.stderr or ""), rr
+            sub, last = part, run
+            while len(sub) > 1:
+                half = sub[:len(sub) // 2]
+                l1, r1 = leaks(half)
+                if l1: sub, last = half, r1
+                else:
+                    l2, r2 = leaks(sub[len(sub) // 2:])
+                    if not l2: break
+                    sub, last = sub[len(sub) // 2:], r2
+            frames = [ln.strip().split(" in ", 1)[1] for ln in (last.stderr or "").split("\n") if " in " in ln and "/repo/" in ln][:4]
+            res.violation("scanning a generated executable (%s) leaked memory (LeakSanitizer): %s" % (sub[0][0] if len(sub) == 1 else "one of %d inputs" % len(sub), " < ".join(frames)),
+                          yv.save_replay("C06", "pegen_leak_%d" % bi, {"generated": sub[0][0], "data_hex": sub[0][1].hex(), "stderr": (last.stderr or "")[-4000:]}))
+        elif not run.complete:
             kk = k if cur is not None else k + 1
             label = part[kk][0] if 0 <= kk < len(part) else "?"
             res.violation("scanning a generated executable (%s) crashed / hung / leaked: %s" % (label, yv.crash_summary(run)),
@@ -274,5 +309,8 @@ def c06(res, tier, seed):
                        "every count / size / offset / name-index field set to boundary values relative to the file length; and of gen/machogen.py: thin 32/64-bit Mach-O images in both byte "
                        "orders (segments with sections, LC_UNIXTHREAD, LC_MAIN, an unknown command) and fat files with 32/64-bit arch tables, cut at every length near the end, load commands "
                        "ending exactly at the end of the file, every count / size / offset field at boundary values; and of gen/dexgen.py: a complete small DEX (id tables, class definition, class "
-                       "data with padded ULEB128 values, code items, map list), every chunk last x cuts, every header / table / ULEB field at boundary values")
+                       "data with padded ULEB128 values, code items, map list), every chunk last x cuts, every header / table / ULEB field at boundary values; and of gen/dotnetgen.py: a PE32 with CLI "
+                       "header, metadata root, the five streams and 13 metadata tables: method signature blobs over every element type (nested, truncated, huge compressed integers) x ParamList "
+                       "inside / past the Param table, every CLI / root / stream / table-header field at boundary values, wide heap indexes, tables declared but absent, list indexes past "
+                       "their tables, metadata at the end of the file cut at every length")
     res.assumptions += ["memory safety for ALL byte strings is not decidable by this technique; a removed bounds check is detected iff a scheduled mutant reaches it (DESIGN.md section 6)"]
